@@ -34,19 +34,41 @@
 
 #include "zck_private.h"
 
+/* Escape the characters that are special in a POSIX extended regular
+ * expression, so the boundary only ever matches itself */
+static char *escape_regex(const char *str) {
+    char *out = zmalloc(2 * strlen(str) + 1);
+    if(!out)
+        return NULL;
+    char *o = out;
+    for(; *str; str++) {
+        if(strchr(".[]()*+?{}|^$\\", *str))
+            *o++ = '\\';
+        *o++ = *str;
+    }
+    return out;
+}
+
 static char *add_boundary_to_regex(zckCtx *zck, const char *regex,
-                                   const char *boundary) {
+                                   const char *raw_boundary) {
     VALIDATE_PTR(zck);
 
-    if(regex == NULL || boundary == NULL)
+    if(regex == NULL || raw_boundary == NULL)
         return NULL;
+    char *boundary = escape_regex(raw_boundary);
+    if(boundary == NULL) {
+        set_error(zck, "Unable to build regular expression");
+        return NULL;
+    }
     char *regex_b = zmalloc(strlen(regex) + strlen(boundary) + 1);
     if(!regex_b || snprintf(regex_b, strlen(regex) + strlen(boundary), regex,
                 boundary) != strlen(regex) + strlen(boundary) - 2) {
         free(regex_b);
+        free(boundary);
         set_error(zck, "Unable to build regular expression");
         return NULL;
     }
+    free(boundary);
     return regex_b;
 }
 
